@@ -26,6 +26,9 @@ EXPLANATION = (
     "cutoff-extended interval it compares (an extended core that wraps sorts to the front, which is what makes the "
     "first and last chain neighbours in the order for every position of the origin)."
     ' R07.6 also: the genes of a core are never re-derived by filtering the coordinate-sorted gene list.'
+    " R07.9: on every path through get_ruleset the rule objects of the returned ruleset have been scaled by non-default "
+    "multipliers at most once (construction scales in place and a copy shares the rule objects), so a rule's distances "
+    "do not depend on whether the rules were limited."
 )
 UNDECIDED = [
     "rotation invariance as a whole (quantifies over coordinates of every gene, core and neighbourhood)",
@@ -232,6 +235,95 @@ def r07_6(ctx: Ctx) -> None:
         raise AnalysisError(f"expected at least 2 edge-gene uses of the within-location lookup, found {count}")
 
 
+def r07_9(ctx: Ctx) -> None:
+    """ "the protoclusters found for a rule do not depend on which other rules are in the ruleset": a Ruleset scales the
+        cutoff and neighbourhood of its rule objects in place when it is constructed, and copy_with_replacements
+        constructs another Ruleset over the same rule objects (dataclasses.replace runs __post_init__ again, with the
+        multipliers handed over or inherited).  On every path through get_ruleset the rule objects of the ruleset that
+        is returned have met non-default multipliers at most once - twice on the path that restricts the rules and once
+        on the other makes a rule's distances depend on the selection. """
+    qual = "get_ruleset"
+    func = ctx.fn(HD, qual)
+    # the constructor scales in place: confirm on the class itself, so that the rule follows the code
+    post = ctx.fn(CP, "Ruleset.__post_init__")
+    in_place = [n for n in walk_local(post) if isinstance(n, ast.Assign) and any(
+        isinstance(t, ast.Attribute) and t.attr in ("cutoff", "neighbourhood") for t in n.targets) and "multipliers" in txt(n.value)]
+    if not in_place:
+        ctx.ob("R07.9", CP, post, "Ruleset.__post_init__", "rules are scaled on construction", True,
+               "no in-place scaling on construction: copies cannot scale twice", form="no scaling statement found")
+        return
+
+    class State(dict):
+        pass
+
+    def build(value: ast.AST, state: dict):
+        """ (times scaled, carries non-default multipliers) for a Ruleset-valued expression, None for anything else """
+        if not isinstance(value, ast.Call):
+            return state.get(txt(value)) if isinstance(value, ast.Name) else None
+        name = call_name(value)
+        if name.endswith("Ruleset.from_files") or name == "Ruleset" or name.endswith(".create_ruleset"):
+            given = kwarg(value, "multipliers")
+            carries = given is not None and not (isinstance(given, ast.Call) and call_name(given) == "Multipliers"
+                                                 and not given.args and not given.keywords)
+            return (1 if carries else 0, carries)
+        if last_attr(value) == "copy_with_replacements" and isinstance(value.func, ast.Attribute):
+            src = state.get(txt(value.func.value))
+            if src is None:
+                return None
+            times, carried = src
+            rules_arg = kwarg(value, "rules")
+            fresh = rules_arg is not None and any(isinstance(n, ast.Call) and call_name(n).split(".")[-1] == "deepcopy"
+                                                  for n in ast.walk(inline_reaching(CFG(func), value, rules_arg)))
+            if fresh:
+                times = 0
+            given = kwarg(value, "multipliers")
+            carries = carried if given is None else True
+            return (times + (1 if carries else 0), carries)
+        return None
+
+    checked = [0]
+
+    def walk(stmts, state: dict) -> dict:
+        for st in stmts:
+            if isinstance(st, (ast.Assign, ast.AnnAssign)) and getattr(st, "value", None) is not None:
+                targets = st.targets if isinstance(st, ast.Assign) else [st.target]
+                made = build(st.value, state)
+                for t in targets:
+                    if isinstance(t, ast.Name):
+                        if made is not None:
+                            state[t.id] = made
+                            if isinstance(st.value, ast.Call):
+                                checked[0] += 1
+                                ctx.ob("R07.9", HD, st, qual, f"ruleset built at `{stmt_key(st)[:50]}`", made[0] <= 1,
+                                       "the rule objects of a ruleset meet non-default multipliers at most once on every path "
+                                       "(a Ruleset scales its rules in place when constructed; a copy shares the rule objects)",
+                                       detail="" if made[0] <= 1 else "the copy is constructed over rules the first construction has "
+                                       "already scaled, with the same multipliers inherited: under --taxon fungi a rule's neighbourhood "
+                                       "is 1.5x with all rules and 2.25x when the rules are limited",
+                                       form=f"scaled {made[0]}x on this path")
+                        elif t.id in state and not isinstance(st.value, ast.Name):
+                            state.pop(t.id)
+            elif isinstance(st, ast.If):
+                a = walk(st.body, dict(state))
+                b = walk(st.orelse, dict(state))
+                merged = {}
+                for key in set(a) | set(b):
+                    va, vb = a.get(key), b.get(key)
+                    if va is None or vb is None:
+                        merged[key] = va or vb
+                    else:
+                        merged[key] = (max(va[0], vb[0]), va[1] or vb[1])
+                state = merged
+            elif isinstance(st, (ast.For, ast.While, ast.With, ast.Try)):
+                for field in ("body", "orelse", "finalbody"):
+                    state = walk(getattr(st, field, []) or [], state)
+        return state
+
+    walk(func.body, {})
+    if checked[0] < 1:
+        raise AnalysisError(f"{qual}: no Ruleset construction recognised (from_files / copy_with_replacements)")
+
+
 def run(ctx: Ctx) -> None:
     ctx.rule("R07.1", "loop-carried definition rule on the per-rule evaluation in apply_cluster_rules", floor=5)
     ctx.rule("R07.2", "rule-loop outputs are partitioned by rule name; per-rule working state is rebuilt", floor=6)
@@ -248,6 +340,8 @@ def run(ctx: Ctx) -> None:
     c03.r03_7(ctx, "R07.7")
     ctx.rule("R07.8", "distances used by detection are wrap-aware", floor=4)
     c03.r03_6(ctx, "R07.8")
+    ctx.rule("R07.9", "a ruleset's rule objects are scaled by the taxon multipliers at most once on every path", floor=1)
+    r07_9(ctx)
     # R07.5 = R03.5 recorded under this property
     before = len(ctx.obs)
     c03.r03_5(ctx)
